@@ -18,7 +18,7 @@ def rerun(case, tmpd):
     worker = cp.Worker(wd["seed"], failures=wd.get("failures", 0.0 if case["profile"] == "fanout_ok" else 0.3), hangs=wd.get("hangs", 0.0))
     m = re.match(r"random\(seed=(\d+)\)", case["schedule"])
     chooser = eg.random_chooser(random.Random(int(m.group(1)))) if m else None
-    info = eg.run_many(case["definition"], case["inputs"], worker, tmpd, chooser=chooser, mtype=case.get("type", "STANDARD"), child=case.get("child_definition"))
+    info = eg.run_many(case["definition"], case["inputs"], worker, tmpd, chooser=chooser, mtype=case.get("type", "STANDARD"), child=case.get("child_definition"), logging=case.get("loggingConfiguration"))
     return eg.convert(info)
 
 
